@@ -577,11 +577,18 @@ package client
 //@ spec func allSetWritten(rc *RuleClient, as []Action) bool = forall i int :: 0 <= i && i < len(as) && isSetValue(old(as[i])) ==> setWritten(rc.nc, old(sentN(rc.nc)), sentN(rc.nc), old(as[i]), rc.config.ID)
 //@ spec func allInactive(as []Action) bool = forall i int :: 0 <= i && i < len(as) ==> !as[i].Active
 //@ spec func listKept(as []Action) bool = forall i int :: 0 <= i && i < len(as) ==> as[i] == old(as[i])
+// listRuns(rc): how many times the run closure has started an action list (ghost counter, bumped at the two call sites)
+//@ model func listRuns(rc *RuleClient) int
 //@ func (*RuleClient).Run$2
 //@   props C13
 //@   local pts data.Points#1
+//@   havoc state(rc) at "rc.ruleRunActions(rc.config.Actions, id)"
+//@   assume list-run-counted: listRuns(rc) == before(listRuns(rc)) + 1 at "rc.ruleRunActions(rc.config.Actions, id)"
+//@   havoc state(rc) at "rc.ruleRunActions(rc.config.ActionsInactive, id)"
+//@   assume list-run-counted: listRuns(rc) == before(listRuns(rc)) + 1 at "rc.ruleRunActions(rc.config.ActionsInactive, id)"
+//@   ensures [C13] runs-once: listRuns(rc) <= old(listRuns(rc)) + 1 && ((len(pts) <= 0 || rc.config.Active != old(rc.config.Active)) ==> listRuns(rc) == old(listRuns(rc)) + 1) && (len(pts) > 0 && rc.config.Active == old(rc.config.Active) ==> listRuns(rc) == old(listRuns(rc)))
 //@   requires rc != nil && (refOf(rc.config.Actions) != refOf(rc.config.ActionsInactive) || len(rc.config.Actions) == 0 || len(rc.config.ActionsInactive) == 0)
-//@   modifies rc, rc.config.Conditions, rc.config.Actions, rc.config.ActionsInactive, state(rc.nc)
+//@   modifies rc, rc.config.Conditions, rc.config.Actions, rc.config.ActionsInactive, state(rc.nc), state(rc)
 //@   ensures [C13] lists-kept: sameSlice(rc.config.Actions, old(rc.config.Actions)) && sameSlice(rc.config.ActionsInactive, old(rc.config.ActionsInactive)) && rc.config.ID == old(rc.config.ID)
 //@   ensures [C13] log-kept: logKept(rc.nc)
 //@   ensures [C13] unchanged-runs-nothing: len(pts) > 0 && rc.config.Active == old(rc.config.Active) ==> listKept(rc.config.Actions) && listKept(rc.config.ActionsInactive)
